@@ -270,7 +270,13 @@ pub fn run(report: &Report, budget: &Budget) {
     let st = hist::explore(report, &hb, "C14", depth, thorough, false, thorough, &hist_oracle, None, None);
     hist::write_stats(report, &st, depth);
     // (a) re-backup of every C01 input
-    let f = |c: &crate::c01::Case, t: &Tree, scratch: &Scratch| judge_rebackup(t, &c.opts, &c.tag, scratch);
+    // (quick: the structure sweep at hunk sizes 1 and 1000; size 2 is left to the thorough tier)
+    let f = |c: &crate::c01::Case, t: &Tree, scratch: &Scratch| {
+        if !thorough && c.sweep == "structure" && c.opts.hunk == 2 {
+            return Vec::new();
+        }
+        judge_rebackup(t, &c.opts, &c.tag, scratch)
+    };
     let (adone, atotal) = crate::c01::for_each_case(report, budget, "C14", &f);
     report.set("rebackup_cases", json!(adone));
     report.set("rebackup_cases_total", json!(atotal));
